@@ -38,6 +38,7 @@ func loadDocs(repo string) [][]byte {
 	if b, err := os.ReadFile(filepath.Join(repo, "testdata/goldmark_bench.md")); err == nil {
 		out = append(out, b)
 	}
+	out = append(out, []byte("<DIV>\n<XMP>\n\nfoo <B> <SCRIPT> <TITLE> <Style>\n\n<TEXTAREA>\n"))
 	out = append(out, []byte("# h\n\n- a\n- b\n\n> q *e* `c` [l](/u \"t\") ![i](/s) <b> &amp;\n\n```go\nx\n```\n\n[r]: /d\n\n[r] <div>\n"))
 	return out
 }
@@ -67,6 +68,7 @@ func main() {
 	repo := flag.String("repo", "/repo", "")
 	workers := flag.Int("workers", 16, "")
 	rounds := flag.Int("rounds", 20, "")
+	sharedEvery := flag.Int("shared-every", 2, "")
 	flag.Parse()
 	docs := loadDocs(*repo)
 	failures := 0
@@ -117,7 +119,7 @@ func main() {
 	}
 	shared := 0
 	for di, d := range docs {
-		if di%8 != 0 && di != len(docs)-1 && di != len(docs)-2 {
+		if di%*sharedEvery != 0 && di < len(docs)-3 {
 			continue
 		}
 		shared++
